@@ -9,6 +9,7 @@
 package main
 
 import (
+	"time"
 	"bufio"
 	"encoding/json"
 	"flag"
@@ -204,3 +205,7 @@ func main() {
 	b, _ := json.MarshalIndent(stats, "", " ")
 	os.WriteFile(filepath.Join(*outDir, *suiteName+".stats.json"), b, 0o644)
 }
+
+// sleepingTimer is a REAL *time.Timer that will not fire during the run: the harness fires the recorded callbacks by
+// hand, but code that looks at the timer it was handed (non-nil? Stop()) must see a real one.
+func sleepingTimer() *time.Timer { return time.AfterFunc(10000*time.Hour, func() {}) }
